@@ -1,6 +1,8 @@
 package checks
 
 import (
+	"strconv"
+	"math"
 	"bytes"
 	"encoding/json"
 	"sort"
@@ -34,6 +36,65 @@ func asNumberRep(v any) any {
 	var out any
 	d.Decode(&out)
 	return out
+}
+
+// asNumberRepSpelled: like asNumberRep, but the numbers are written the other ways JSON allows (1.0, 1e0, 10e-1, 1e2 for 100,
+// 5e-1 for 0.5), cycling through the spellings from one number of the value to the next, so that equal numbers inside one
+// value come in different spellings. The second result says whether any number was respelled.
+func asNumberRepSpelled(v any) (any, bool) {
+	n, changed := 0, false
+	var walk func(x any) any
+	walk = func(x any) any {
+		switch t := x.(type) {
+		case float64:
+			n++
+			plain := strconv.FormatFloat(t, 'f', -1, 64)
+			if math.Abs(t) >= 1e15 || math.IsInf(t, 0) || math.IsNaN(t) {
+				return json.Number(plain)
+			}
+			sp := plain
+			if t == math.Trunc(t) {
+				switch n % 4 {
+				case 2:
+					sp = plain + ".0"
+				case 3:
+					sp = plain + "e0"
+				case 0:
+					if t != 0 && math.Mod(t, 10) == 0 {
+						sp = strconv.FormatFloat(t/10, 'f', -1, 64) + "e1"
+					} else {
+						sp = plain + "0e-1"
+					}
+				}
+			} else {
+				switch n % 3 {
+				case 2:
+					sp = plain + "0"
+				case 0:
+					sp = strconv.FormatFloat(t*10, 'f', -1, 64) + "e-1"
+				}
+			}
+			if sp != plain {
+				changed = true
+			}
+			return json.Number(sp)
+		case []any:
+			out := make([]any, len(t))
+			for i, e := range t {
+				out[i] = walk(e)
+			}
+			return out
+		case map[string]any:
+			out := make(map[string]any, len(t))
+			for _, k := range sortedKeys(t) {
+				out[k] = walk(t[k])
+			}
+			return out
+		}
+		return x
+	}
+	out := walk(v)
+	return out, changed
 }
 
 // shrinkSchemaValue greedily shrinks (schema, value) while pred stays true.
